@@ -221,7 +221,7 @@ func c04gen(b core.Batch, i int) c04hdr {
 			items = append(items, it)
 		}
 	}
-	form := []string{"plain", "case-upper", "case-mixed", "second-line", "third-line", "after-unknown", "no-space", "extra-space", "repeated", "reversed"}[rng.IntN(10)]
+	form := []string{"plain", "case-upper", "case-mixed", "second-line", "third-line", "after-unknown", "no-space", "extra-space", "repeated", "reversed", "after-empty-line", "before-empty-line"}[rng.IntN(12)]
 	if class == "none" {
 		form = "plain"
 	}
@@ -256,6 +256,10 @@ func c04gen(b core.Batch, i int) c04hdr {
 		h.CC = []string{"public", strings.Join(items, sep)}
 	case "third-line":
 		h.CC = []string{"x-a=1", "public", strings.Join(items, sep)}
+	case "after-empty-line":
+		h.CC = []string{"", strings.Join(items, sep)} // an empty first Cache-Control field line, the directives on the second
+	case "before-empty-line":
+		h.CC = []string{strings.Join(items, sep), ""}
 	default:
 		if len(items) > 0 {
 			h.CC = []string{strings.Join(items, sep)}
@@ -303,7 +307,7 @@ func c04expTag(why string) string {
 // c04formTag names the decoration only when it is what distinguishes the case from the plain form.
 func c04formTag(h c04hdr, why string) string {
 	switch h.Form {
-	case "second-line", "third-line":
+	case "second-line", "third-line", "after-empty-line":
 		return "later-header-line"
 	case "case-upper", "case-mixed":
 		return "directive-case"
@@ -344,6 +348,18 @@ func (w *c04world) handler(rw http.ResponseWriter, q *http.Request, rec *rig.Ori
 		return
 	}
 	rec.SetNote(id)
+	if pre := q.Header.Get("X-Verif-Earlier"); pre != "" {
+		// the URL's earlier life: an answer that cannot be stored (the case proper follows)
+		if pre == "no-store" {
+			rw.Header().Set("Cache-Control", "no-store")
+			rw.WriteHeader(200)
+			rw.Write([]byte("an earlier unstorable answer"))
+		} else {
+			rw.WriteHeader(404)
+			rw.Write([]byte("not there yet"))
+		}
+		return
+	}
 	for _, l := range c.H.CC {
 		rw.Header().Add("Cache-Control", l)
 	}
@@ -416,6 +432,18 @@ func c04RunE2E(b core.Batch, r *core.Recorder) {
 		q := rig.Req{Method: c.Method, Target: "/" + c.ID}
 		if c.Method == "POST" || c.Method == "PUT" || c.Method == "PATCH" {
 			q.Body = []byte("x=1")
+		}
+		if i%5 == 1 && c.Method == "GET" {
+			// "at any point of a request history": the same URL answered something unstorable once before
+			pre := []string{"404", "no-store"}[(i/5)%2]
+			if c.Ignore {
+				pre = "404" // with directives ignored a 200 marked no-store is storable: it would not be an unstorable earlier answer
+			}
+			rig.Do(p, mode, o.Addr, rig.Req{Method: "GET", Target: "/" + c.ID, Header: [][2]string{{"X-Verif-Earlier", pre}}})
+			w.mu.Lock()
+			w.counter[c.ID] = 0
+			w.mu.Unlock()
+			r.Count("e2e_cases_after_an_unstorable_answer_for_the_same_url", 1)
 		}
 		r1 := rig.Do(p, mode, o.Addr, q)
 		seq := o.LastSeq()
@@ -567,8 +595,8 @@ func init() {
 	core.Register(&core.Monitor{
 		ID:    "C04",
 		Level: "exploration",
-		Rule: "header sets = directive class (21 classes: none, no-store, no-cache, private, max-age=0/60/86400, public, unknown, s-maxage, invalid and duplicate max-age forms, combinations) x decoration (plain, upper/mixed case, 2nd/3rd Cache-Control line, after unknown directives, spacing, repetition, reversed order) x Expires class (absent, future/past IMF, past RFC 850, past asctime, '0', '-1', garbage, empty); " +
-			"function level: ShouldCache(ignore) vs the reference predicate for every generated set; end to end: method from 7, status from 15, one of the 4 cache_policy combinations (fixed at start, or - every 4th case - switched through the API entry point on a proxy built from an untouched default configuration), two sequential requests per case through the real proxy (both transports/backends); the origin log classifies the second request as no-contact / conditional-contact / plain-contact. Non-trivial = distinct (method, status, header set, policy, transport, backend).",
+		Rule: "header sets = directive class (21 classes: none, no-store, no-cache, private, max-age=0/60/86400, public, unknown, s-maxage, invalid and duplicate max-age forms, combinations) x decoration (plain, upper/mixed case, 2nd/3rd Cache-Control line, after / before an empty Cache-Control line, after unknown directives, spacing, repetition, reversed order) x Expires class (absent, future/past IMF, past RFC 850, past asctime, '0', '-1', garbage, empty); " +
+			"function level: ShouldCache(ignore) vs the reference predicate for every generated set; end to end: method from 7, status from 15, one of the 4 cache_policy combinations (fixed at start, or - every 4th case - switched through the API entry point on a proxy built from an untouched default configuration), two sequential requests per case (every 5th GET case after the same URL answered 404 / no-store once) through the real proxy (both transports/backends); the origin log classifies the second request as no-contact / conditional-contact / plain-contact. Non-trivial = distinct (method, status, header set, policy, transport, backend).",
 		Assumptions: []string{"public, s-maxage, qualified no-cache/private, invalid or duplicate max-age without a prohibiting directive are unconstrained (not judged)", "positive max-age together with a past Expires is unconstrained",
 			"an entry stored under the ignore policy whose own lifetime is already over may be revalidated at once (conditional contact counts as 'was stored')"},
 		Plan:     c04Plan,
